@@ -567,7 +567,7 @@ def ann_is_abstract(ty):
     for n in ast.walk(ty) if ty is not None else []:
         if isinstance(n, ast.Call) and isinstance(n.func, ast.Name) and n.func.id in ABSTRACT_TYPE_NAMES:
             return True
-        if isinstance(n, ast.Name) and n.id == 'Val':
+        if isinstance(n, ast.Name) and n.id in ('Val', 'ValSeq', 'AbsList', 'AbsDict'):
             return True
     return False
 
